@@ -4,7 +4,6 @@ package main
 
 import (
 	"bytes"
-	"crypto/rand"
 	"errors"
 	"fmt"
 	"net"
@@ -13,7 +12,6 @@ import (
 
 	"github.com/cbeuw/Cloak/internal/client"
 	"github.com/cbeuw/Cloak/internal/common"
-	"github.com/cbeuw/Cloak/internal/ecdh"
 	mux "github.com/cbeuw/Cloak/internal/multiplex"
 	"github.com/cbeuw/Cloak/internal/server"
 )
@@ -41,10 +39,9 @@ func (f *failingReplyConn) Write(b []byte) (int, error) {
 
 func c01creatorLost(c *ctx, k int) {
 	r := c.r
-	pv, pub, err := ecdh.GenerateKey(rand.Reader)
-	if err != nil {
-		return
-	}
+	keys := newServerKeys(r)
+	pv, pub := &keys.priv, &keys.pub
+	ws := k%2 == 1 // the lost connection came over the WebSocket (CDN) transport
 	uid := r.bytes(16)
 	world := common.RealWorldState
 	seg := func(avail int) int { return avail }
@@ -82,12 +79,22 @@ func c01creatorLost(c *ctx, k int) {
 	d1 := make(chan struct{})
 	go func() { server.VerifC15Dispatch(&failingReplyConn{Conn: b1, fail: true}, sta); close(d1) }()
 	h1 := make(chan error, 1)
-	go func() {
-		a1.SetDeadline(time.Now().Add(2 * time.Second))
-		_, err := client.VerifNewDirectTLS(r.intn(3)).Handshake(a1, ai)
-		h1 <- err
-	}()
-	<-h1
+	if ws {
+		// the upgrade request a CDN forwards, with valid credentials; the server's 101 reply cannot be written
+		pk := buildFirstPacket(keys, r, "ws", 0, uid, sid, "test", enc, false, time.Now())
+		a1.Write(pk.pkt)
+		select {
+		case <-d1:
+		case <-time.After(2 * time.Second): // dispatchConnection has not returned: it may be parked in the responder
+		}
+	} else {
+		go func() {
+			a1.SetDeadline(time.Now().Add(2 * time.Second))
+			_, err := client.VerifNewDirectTLS(r.intn(3)).Handshake(a1, ai)
+			h1 <- err
+		}()
+		<-h1
+	}
 	a1.Close()
 	// connection 2 of the same client session: a healthy connection that joins
 	a2, b2 := newSpipe("joiner", seg)
@@ -135,12 +142,12 @@ func c01creatorLost(c *ctx, k int) {
 		up := len(upstream)
 		umu.Unlock()
 		_, has, _, _, n := server.VerifSession(sta, uid, sid)
-		c.o.V("C01 session-not-served creating-connection-lost-during-handshake-reply", map[string]any{"case": k, "enc": enc,
+		c.o.V("C01 session-not-served creating-connection-lost-during-handshake-reply", map[string]any{"case": k, "enc": enc, "lost_connection_transport": map[bool]string{false: "direct", true: "websocket"}[ws],
 			"written": len(msg), "echoed": len(echoed), "bytes_that_reached_the_proxy": up, "server_has_the_session": has, "sessions_of_the_user": n,
 			"what": "the session is registered at the server and the joining connection is healthy on both sides, yet a stream opened on it is never served: the only Accept loop belongs to the connection that created the session, and that connection returned when its handshake reply could not be written",
 			"replay": "connection 1 (new session id): server's reply write fails; connection 2, same session id: real handshake succeeds (joins); client opens a stream and writes; nothing comes back within 4 s"})
 	}
 	sesh.Close()
 	c.o.stat("creator_lost_cases", 1)
-	c.o.case_(fmt.Sprintf("creator-lost/%d/%d", k, enc), true)
+	c.o.case_(fmt.Sprintf("creator-lost/%d/%d/%v", k, enc, ws), true)
 }
